@@ -45,7 +45,7 @@ func rawPairs(uuid, inst string) ([][2][]byte, uint32, error) {
 }
 
 var c19Reads = map[string][]string{
-	"kv":   {"keys", "key/a", "key/ab", "key/b", "key/k1", "key/k2", "keyrange/a/z", "keyrangevalues/a/z?json=true"},
+	"kv":   {"keys", "key/onlyonsiblings", "key/a", "key/ab", "key/b", "key/k1", "key/k2", "keyrange/a/z", "keyrangevalues/a/z?json=true"},
 	"ann":  {"elements/64_64_64/0_0_0", "all-elements", "tag/t1", "tag/t2", "tag/t3", "blocks/2_2_2/0_0_0"},
 	"roi":  {"roi", "mask/0_1_2/96_96_96/0_0_0", "partition?batchsize=2"},
 	"gray": {"raw/0_1_2/64_64_64/0_0_0", "raw/0_1_2/32_32_32/32_0_32"},
@@ -58,13 +58,19 @@ func readInst(uuid, inst, path string) string {
 		body = reqIDre.ReplaceAll(body, []byte("request <id>"))
 	}
 	body = rawKeyRe.ReplaceAll(body, []byte("key [<raw key>]")) // error texts quote the raw key, which holds the instance id
-	if len(body) > 200 {
+	if r.Code >= 400 {
+		// error texts also name the instance and its local id: both differ between a source and its copy by design
+		body = localIDRe.ReplaceAll(body, []byte("local id <id>"))
+		body = bytes.ReplaceAll(body, []byte(`"`+inst+`"`), []byte(`"<instance>"`))
+	}
+	if len(body) > 200 && !(r.Code >= 400 && len(body) < 2000) {
 		return fmt.Sprintf("%d %x…(%d bytes) %s", r.Code, sha8(body), len(body), string(body[:80]))
 	}
 	return fmt.Sprintf("%d %s", r.Code, string(body))
 }
 
 var rawKeyRe = regexp.MustCompile(`key \[[0-9 ]+\]`)
+var localIDRe = regexp.MustCompile(`local id [0-9]+`)
 
 func sha8(b []byte) []byte {
 	h := fnvBytes(b)
@@ -196,6 +202,23 @@ func runC19(c *Ctx) {
 							w.log("kv delete all keys at third sibling v%d", s3.v)
 						}
 						c.Count("directed-sibling-deletes")
+					}
+					// directed: sibling branches that independently store byte-identical values (same key-value
+					// pairs, the same ROI spans, the same gray block) while their common parent holds other values
+					t1 := w.child(base, true)
+					t2 := w.child(base, true)
+					if t1 != nil && t2 != nil {
+						blk := r.Bytes(32 * 32 * 32)
+						for _, t := range []*wnode{t1, t2} {
+							for _, k := range worldKeys {
+								w.s.HTTP("POST", "node/"+t.uuid+"/kv/key/"+k, []byte("same-"+k))
+							}
+							w.s.HTTP("POST", "node/"+t.uuid+"/kv/key/onlyonsiblings", []byte("same"))
+							w.must("POST", "node/"+t.uuid+"/roi/roi", []byte("[[2,2,1,2],[2,1,0,0]]"))
+							w.must("POST", fmt.Sprintf("node/%s/gray/raw/0_1_2/32_32_32/32_32_32", t.uuid), blk)
+						}
+						w.log("identical kv values, ROI spans and gray block stored at siblings v%d and v%d", t1.v, t2.v)
+						c.Count("directed-sibling-identical")
 					}
 				}
 			}
